@@ -193,6 +193,10 @@ type Harness struct {
 	Replay func(c *Ctx, cs json.RawMessage) string
 	// Evidence maps merged results to coverage keys.
 	Evidence func(m *Merged) map[string]any
+	// AltShard selects the shards that run the alternative binary named by
+	// the environment variable VERIF_ALT_BIN (a second build of the same
+	// harness, e.g. with scaled constants).
+	AltShard func(i, n int) bool
 	// Assumptions for the evidence file.
 	Assumptions []string
 }
@@ -399,7 +403,11 @@ func parentMain(h *Harness) int {
 		go func() {
 			defer wg.Done()
 			out := filepath.Join(tmp, fmt.Sprintf("part-%d.json", i))
-			cmd := exec.Command(self, "-tier", tier, "-seed", fmt.Sprint(*flagSeed), "-shard", fmt.Sprintf("%d/%d", i, n),
+			bin := self
+			if alt := os.Getenv("VERIF_ALT_BIN"); alt != "" && h.AltShard != nil && h.AltShard(i, n) {
+				bin = alt
+			}
+			cmd := exec.Command(bin, "-tier", tier, "-seed", fmt.Sprint(*flagSeed), "-shard", fmt.Sprintf("%d/%d", i, n),
 				"-out", out, "-deadline", fmt.Sprint(deadline.Unix()))
 			logf, _ := os.Create(filepath.Join(tmp, fmt.Sprintf("log-%d.txt", i)))
 			cmd.Stdout, cmd.Stderr = logf, logf
